@@ -22,7 +22,17 @@ type AttrVal struct {
 }
 
 var validAttrKinds = map[string]bool{"i8": true, "i16": true, "i32": true, "i64": true, "u8": true, "u16": true, "u32": true, "u64": true,
-	"f32": true, "f64": true, "str": true, "[]i32": true, "[]i64": true, "[]f32": true, "[]f64": true}
+	"f32": true, "f64": true, "str": true, "[]i32": true, "[]i64": true, "[]f32": true, "[]f64": true,
+	// the same slices as values of the caller's own types (a defined slice type, a slice of a defined element type)
+	"[]f32:named": true, "[]f64:named": true, "[]i32:named": true, "[]f32:elem": true, "[]i64:elem": true}
+
+type (
+	namedF32s []float32
+	namedF64s []float64
+	namedI32s []int32
+	celsius   float32
+	ticks     int64
+)
 
 func (a AttrVal) Valid() bool {
 	if !validAttrKinds[a.Kind] {
@@ -69,6 +79,36 @@ func attrText(n, seed int) string {
 
 // Go returns the Go value for WriteAttribute and the modelled stored form (nil for invalid values).
 func (a AttrVal) Go() (any, *MAttr) {
+	if i := strings.IndexByte(a.Kind, ':'); i > 0 {
+		b := a
+		b.Kind = a.Kind[:i]
+		v, m := b.Go()
+		if m == nil {
+			return v, m
+		}
+		switch s := v.(type) {
+		case []float32:
+			if a.Kind[i:] == ":elem" {
+				out := make([]celsius, len(s))
+				for k, x := range s {
+					out[k] = celsius(x)
+				}
+				return out, m
+			}
+			return namedF32s(s), m
+		case []float64:
+			return namedF64s(s), m
+		case []int32:
+			return namedI32s(s), m
+		case []int64:
+			out := make([]ticks, len(s))
+			for k, x := range s {
+				out[k] = ticks(x)
+			}
+			return out, m
+		}
+		return v, m
+	}
 	bits := func(i int) uint64 { return rawBits(a.Seed, i, 8, ModeMixed) }
 	le := func(v uint64, n int) []byte {
 		b := make([]byte, 8)
